@@ -66,3 +66,16 @@ Proof.
   revert l. induction a as [|a IH]; intros l; [reflexivity|].
   destruct l as [|x l]; simpl; [rewrite firstn_nil; reflexivity|]. f_equal. apply IH.
 Qed.
+
+(* result of running a fuelled, bounds-checked model of Go code *)
+Inductive res (A : Type) : Type :=
+| Ok (a : A)
+| Panic          (* Go would panic (index / slice out of range) *)
+| OutOfFuel.     (* the model's loop fuel ran out (never happens: theorems exclude it) *)
+Arguments Ok {A} a.
+Arguments Panic {A}.
+Arguments OutOfFuel {A}.
+
+Definition bind {A B} (r : res A) (f : A -> res B) : res B :=
+  match r with Ok a => f a | Panic => Panic | OutOfFuel => OutOfFuel end.
+Notation "'do' x <- r ; k" := (bind r (fun x => k)) (at level 200, x pattern, r at level 100, k at level 200).
